@@ -43,12 +43,16 @@ EmitType ==
     /\ EMIT /\ ph = "type"
     /\ ndJsonSerialize(IOEnv.OUT \o "/" \o ty \o ".ndjson", TypeLines(ty))
     /\ ph' = "emitted" /\ UNCHANGED <<ty, val>>
+EmitNonLattice ==
+    /\ EMIT /\ ph = "nonlattice"
+    /\ ndJsonSerialize(IOEnv.OUT \o "/" \o ty \o ".ndjson", TypeLines(ty))
+    /\ ph' = "emitted" /\ UNCHANGED <<ty, val>>
 EmitBimo ==
     /\ EMIT /\ ph = "bimo"
     /\ ndJsonSerialize(IOEnv.OUT \o "/bimo_" \o ty \o ".ndjson", BimoLines(ty))
     /\ ph' = "emitted" /\ UNCHANGED <<ty, val>>
 
-Next == PickType \/ PickValue \/ PickNonLattice \/ PickBimo \/ PickBimoValue \/ EmitType \/ EmitBimo
+Next == PickType \/ PickValue \/ PickNonLattice \/ PickBimo \/ PickBimoValue \/ EmitType \/ EmitNonLattice \/ EmitBimo
 Spec == Init /\ [][Next]_vars
 
 -----------------------------------------------------------------------------
@@ -69,7 +73,14 @@ ValueLawsHold ==
 (* the documented non-lattice: key not totally ordered => associativity fails *)
 NonLatticeDocumented ==
     ph = "nonlattice" =>
-        LET t == NonLattice[ty] IN ~TotalOrder(t.a) /\ ~AssocHolds(t)
+        LET t == NonLattice[ty]  V == Values(t) IN
+        /\ ~TotalOrder(t.a) /\ ~AssocHolds(t)
+        \* what the documented DomPair join does guarantee, also over a partially ordered key:
+        \* idempotent, commutative, an upper bound of both arguments in the documented order,
+        \* and Changed exactly when the argument is not below the receiver
+        /\ \A a \in V : LawIdem(t, a) /\ LawComm(t, V, a) /\ Leq(t, a, a)
+        /\ \A a \in V : \A b \in V : Leq(t, a, Join(t, a, b)) /\ Leq(t, b, Join(t, a, b))
+        /\ \A a \in V : LawChangedIsStrict(t, V, a) /\ LawBot(t, V, a)
 
 BimoLawsHold ==
     ph = "bimovalue" =>
